@@ -8,19 +8,41 @@ lists nothing else. No two elements of one model have the same AUTOSAR path, and
 always equals the concatenation of the item names of its identifiable ancestors and itself."
 
 Model: `Model.index` (the `identifiables` map) with `idxInsert` / `idxRemove` / `idxFix` / `idxGet`
-(`add_identifiable`, `remove_identifiable`, `fix_identifiables`, `get_element_by_path`); an element's path
-is computed from the tree (`pathOfChain` = "/" + item names of the identifiable nodes on the way down).
-Proved for all index contents and all paths (byte strings):
-* finite-map laws: lookup after insert / after remove, other keys untouched;
-* the re-keying test `pathSuffix` is exact on path boundaries: `old` itself and `old/…` are re-keyed,
-  a path that merely continues the text of `old` (`/pkg1` vs `/pkg10`) is not, and whatever is re-keyed
-  has the form `old ++ suffix` with an empty suffix or one that starts with '/'.
-Partial: the invariant "index = set of (path, element) of the identifiable elements of the tree" over all
-histories is not yet a theorem; it is checked after every request by the correspondence run (the dump lists
-the index) and by the direct oracle on the real library (index vs paths recomputed from the tree).
+(`add_identifiable`, `remove_identifiable`, `fix_identifiables`, `get_element_by_path`); an element's path is computed by
+navigation from the root (`pathOfChain` = "/" + item names of the named nodes on the way down = `path_unchecked`).
+
+PROVED — invariant by induction over operations, no bound on the history (`C04_index_exact_reachable`): in EVERY state
+reachable from the empty world by ANY history of the seventeen core operations of `Model/Step.lean` (new model,
+create_file, create_sub_element[_at], create_named_sub_element[_at], remove_sub_element, set_character_data — including the
+edit of a SHORT-NAME, i.e. renaming through the text —, remove_character_data, set_attribute / set_attribute_string /
+remove_attribute, set_comment, insert / remove character content item, add_to_file, remove_from_file, remove_file,
+set_version; the driver answers these requests with the very step function the theorem is about), in every model:
+  * `lookup q = some i`  ⇔  navigation finds the element `i`, `i` has an item name, and its path is exactly `q`
+    (so a lookup returns that very element, nothing stale, nothing missing);
+  * no two elements have the same path; element ids are unique;
+provided the history stays inside two explicit guards (`OpOk`): it does not create an element CALLED SHORT-NAME through
+`create_sub_element` / `create_named_sub_element`, and files have versions within `vOk`.  The specification enters through
+`IdxHyp` (facts about types that have a SHORT-NAME); for the tables regenerated from the current source they are checked by
+kernel evaluation (`C04_real_tables`: all of `NameWFv realSpec 0xFFFFFFFE` and `SnOnlyFirst realSpec` — `vOk` = every
+version except AUTOSAR 4.0.1).
+Both guards exclude points at which the statement is FALSE — of the model and of the library (replayed on every run):
+  * `C04_witness_short_name_added_later` (finding c04:short-name-added-later-not-indexed),
+  * `C04_witness_content_before_short_name` (finding c04:content-before-short-name-in-mixed-named-element; on the real
+    tables: `C04_real_tables_not_all_versions`, the two named types that are not SEQUENCEs, named in 4.0.1 only).
+Also proved, for all index contents and all paths: finite-map laws of the index, and the re-keying test respects path
+boundaries (`/pkg1` vs `/pkg10`); the re-keying of `fix_identifiables` as a whole is the key rewriting `rekey`
+(`C04_fix_identifiables_is_rekey`), the index after `remove_internal` is the old one without the subtree's entries
+(`C04_remove_internal_exact`).
+Partial (named so): `set_item_name`, move, copy, sort, `set_reference_target` and loading are not in the core set — their
+effect on the index is compared with the library after every request (the dump lists the index) and decided by the direct
+oracle on the real library (index vs paths recomputed from the tree); the hypothesis `IdxHyp.noSlash` (a value accepted
+for a SHORT-NAME contains no '/') is about the validator of the SHORT-NAME pattern, which C19 ties to its regex.
 Known findings: see KNOWN_FINDINGS.txt (`c04:*`).
 -/
 import AutosarVerif.Lemmas.WorldOps
+import AutosarVerif.Lemmas.IndexWitness
+import AutosarVerif.Lemmas.IndexBridge
+import AutosarVerif.Lemmas.NameWfReal
 
 namespace AV.C04
 open AV.W
@@ -45,5 +67,64 @@ example : pathSuffix [47, 112, 107, 103, 49] [47, 112, 107, 103, 49, 48] = none 
 example : pathSuffix [47, 112, 107, 103, 49] [47, 112, 107, 103, 49, 47, 120] = some [47, 120] := by decide
 example : idxGet (idxFix [([47, 112, 107, 103, 49], 1), ([47, 112, 107, 103, 49, 48], 2), ([47, 112, 107, 103, 49, 47, 120], 3)]
     [47, 112, 107, 103, 49] [47, 113]) [47, 113, 47, 120] = some 3 := by decide
+
+/-- `fix_identifiables(old, new)` as a whole is the key rewriting: every entry at or below `old` moves to the same place
+below `new`, every other entry stays (keys pairwise different, nothing at or below `new` before) -/
+theorem C04_fix_identifiables_is_rekey (idx : List (Bytes × Nat)) (old new : Bytes) (hn : keysNodupI idx)
+    (hfree : ∀ e ∈ idx, pathSuffix new e.1 = none) (q' : Bytes) (i : Nat) :
+    idxGet (idxFix idx old new) q' = some i ↔ ∃ q, idxGet idx q = some i ∧ rekey old new q = q' :=
+  idxFix_get idx old new hn hfree q' i
+
+/-- the index after `remove_internal` of a subtree is the old index without the entries of that subtree -/
+theorem C04_remove_internal_exact (S : Spec) (fuel : Nat) (h : Hdr) (kids : Items) (path : Bytes) (idx : List (Bytes × Nat))
+    (rs : List (Bytes × List Nat)) (hfuel : kids.size + 1 ≤ fuel) :
+    (removeInternal S fuel h kids path idx rs).1 =
+      idx.filter fun e => !(((entries S (.elem h kids .nil) path).map (·.1)).contains e.1) :=
+  removeInternal_index S fuel h kids path idx rs hfuel
+
+/-- one guarded step keeps the invariant -/
+theorem C04_core_step_keeps_index_exact (S : Spec) (V : Env) (vOk : Nat) (rootAttrs : List (Nat × CDv)) (hH : IdxHyp S V vOk)
+    (w : World) (op : Op) (hop : OpOk S vOk op) (hw : WInv S vOk w) : WInv S vOk (applyOp S V rootAttrs w op).1 :=
+  applyOp_winv S V vOk rootAttrs hH w op hop hw
+
+/-- **C04 over all histories**: in every reachable state of a guarded history, in every model, a lookup answers `i` for `q`
+exactly when navigation finds the element `i`, it has an item name and its path (`pathOfChain`, what `Element::path`
+computes) is `q`; paths are pairwise different; ids are unique -/
+theorem C04_index_exact_reachable (S : Spec) (V : Env) (vOk : Nat) (rootAttrs : List (Nat × CDv)) (hH : IdxHyp S V vOk)
+    (ops : List Op) (hops : ∀ op ∈ ops, OpOk S vOk op) :
+    ∀ m ∈ (run S V rootAttrs ops).models,
+      (∀ q i, m.lookup q = some i ↔
+        ∃ c, m.rootItems.chain i = some c ∧ (itemName S (lastOf c).1 (lastOf c).2).isSome = true ∧ pathOfChain S c = q) ∧
+      keysNodupI (entries S m.rootItems []) ∧ m.rootItems.ids.Nodup := by
+  intro m hm
+  have h := run_winv S V vOk rootAttrs hH ops hops m hm
+  refine ⟨fun q i => ?_, h.keys, h.ids⟩
+  rw [Model.lookup, h.exact q i, entries_mem_iff S m.rootItems h.ids [] q i]
+  constructor
+  · rintro ⟨c, hc, hn, hp⟩; exact ⟨c, hc, hn, (chainPre_nil S c) ▸ hp⟩
+  · rintro ⟨c, hc, hn, hp⟩; exact ⟨c, hc, hn, (chainPre_nil S c).symm ▸ hp⟩
+
+/-- the facts the invariant needs from the specification hold of the tables regenerated from the current source, for
+every version except AUTOSAR 4.0.1 (kernel evaluation of the scans in `Lemmas/NameWfCheck.lean`) -/
+theorem C04_real_tables : NameWFv AV.Gen.realSpec 0xFFFFFFFE ∧ SnOnlyFirst AV.Gen.realSpec :=
+  ⟨AV.Gen.realSpec_nameWFv, AV.Gen.realSpec_snOnlyFirst⟩
+
+/-- … and NOT for all versions: in 4.0.1 two named types are not SEQUENCEs -/
+theorem C04_real_tables_not_all_versions : ¬ NameWF AV.Gen.realSpec := AV.Gen.realSpec_not_nameWF
+
+/-- negation witness 1 (guard "no element called SHORT-NAME is created through create_sub_element"): after the history
+`witOps1` on `nameSpec` the element e1 has the path "/x" and the index is empty -/
+theorem C04_witness_short_name_added_later : ¬ WInv nameSpec 6 (run nameSpec nameEnv [] witOps1) := not_winv_1
+
+/-- negation witness 2 (guard "file versions within vOk"): in a version in which a named type has MIXED content a text item
+can be put in front of the SHORT-NAME; the index keeps "/a" for an element that no longer has a name -/
+theorem C04_witness_content_before_short_name :
+    ((run nameSpec nameEnv [] witOps2).models.map fun m => (m.index, entries nameSpec m.rootItems [])) = [([([47, 97], 1)], [])] :=
+  witness_content_before_short_name
+
+/-- non-vacuity: `nameSpec` / `nameEnv` meet `IdxHyp`, the history `goodOps` (create, nested create, rename through the
+SHORT-NAME, second package, remove) is guarded, and the theorem applies to it with a non-empty index -/
+theorem C04_hypotheses_are_met : IdxHyp nameSpec nameEnv 6 ∧ (∀ op ∈ goodOps, OpOk nameSpec 6 op) ∧
+    WInv nameSpec 6 (run nameSpec nameEnv [] goodOps) := ⟨nameSpec_hyp, goodOps_ok, goodOps_winv⟩
 
 end AV.C04
